@@ -113,6 +113,8 @@ type ppc =
 | PLink
 | PSetT
 | PPub
+| PLenH
+| PLenT
 
 type cpc =
 | CIdle
@@ -134,19 +136,21 @@ type mem = { tidx : nat; tblk : nat; hidx : nat; hblk : nat; first :
              nat; lasth : nat; nxt : (nat -> nat);
              slot : (nat -> nat -> (nat * nat) option); nalloc : nat }
 
-type prod0 = { pp : ppc; pv : nat; pnew : nat; plh : nat }
+type prod0 = { pp : ppc; pv : nat; pnew : nat; plh : nat; plenh : nat;
+               pres : nat }
 
 type cons = { cp : cpc; cop : op; cpidx : nat; cend : nat; ck : nat;
               cacc : nat list; cnh : nat; clh : nat; cres : nat }
 
-type gq = { absq : nat list; pushed : nat list; popped : nat list; glen0 : nat }
+type gq = { absq : nat list; pushed : nat list; popped : nat list;
+            glen0 : nat; glen0p : nat }
 
 type gk = { bid : (nat -> nat); gfk : nat; glk : nat; gplk : nat; ghk : 
             nat; gtk : nat; gnb : nat }
 
 type gm = { bad_fifo : bool; bad_none : bool; bad_read : bool;
-            bad_recyc : bool; bad_over : bool; bad_null : bool; bad_len : 
-            bool }
+            bad_recyc : bool; bad_over : bool; bad_null : bool;
+            bad_len : bool; bad_lenp : bool }
 
 type st = { m : mem; p : prod0; c : cons; q : gq; k : gk; f : gm }
 
@@ -186,6 +190,8 @@ val p_new : prod0 -> nat -> prod0
 
 val p_lh : prod0 -> nat -> prod0
 
+val q_len0p : gq -> nat -> gq
+
 val c_pc : cons -> cpc -> cons
 
 val k_fk : gk -> nat -> gk
@@ -214,12 +220,15 @@ val f_null : gm -> bool -> gm
 
 val f_len : gm -> bool -> gm
 
+val f_lenp : gm -> bool -> gm
+
 val rdpos : st -> nat
 
 val in_window : st -> nat -> bool
 
 type action =
 | Push of nat
+| PLen
 | PStep
 | Pop
 | Bulk
@@ -239,8 +248,9 @@ val run : nat -> st -> action list -> st option
 
 val monitors_ok : st -> bool
 
-type aux = { ren : (z * nat) list; sob : (z * nat) list; pact : z; cact : 
-             z; ccall : nat; nitems : nat }
+type aux = { ren : (z * nat) list; sob : (z * nat) list;
+             fob : (z * nat) list; pact : z; pkind : nat; cact : z;
+             ccall : nat; nitems : nat }
 
 type ast = st * aux
 
@@ -266,9 +276,11 @@ val set_ren : aux -> (z * nat) list -> aux
 
 val set_sob : aux -> (z * nat) list -> aux
 
-val set_pact : aux -> z -> aux
+val set_pact : aux -> z -> nat -> aux
 
 val set_call : aux -> z -> nat -> aux
+
+val set_fob : aux -> (z * nat) list -> aux
 
 val set_items : aux -> nat -> aux
 
@@ -286,6 +298,10 @@ val ptr_ev :
 val load_acts : nat -> st -> action list
 
 val reads_done : st -> bool
+
+val field_of : st -> z -> nat option
+
+val accept_core : nat -> ast -> z list -> ast option
 
 val accept_ev : nat -> ast -> z list -> ast option
 
